@@ -808,7 +808,9 @@ class Gen:
         rng = self.rng
         wdir = rng.choice(DIRS)
         depth = rng.choice([1, 2, 2, 3, 3])
-        entry = rng.choice(["args", "args", "args", "parse_path", "dcf"])
+        entry = rng.choice(["args", "args", "args", "parse_path", "dcf", "parse_path_obj", "parse_path_obj", "apply_config_obj", "dcf_obj", "ctx"])
+        if entry == "ctx":
+            return self.ctx_program(wdir, depth)
         pool = list(LEVEL_KEYS)
         rng.shuffle(pool)
         top = []
@@ -826,20 +828,55 @@ class Gen:
             items = self.level(0, d, share, depth - 1) if share else []
             if not items:
                 items = [self.path_node(rng.choice(["pa", "pb", "pc", "pd"]), d)]   # dedupe_keys keeps one value per position
+            if entry in ("parse_path_obj", "apply_config_obj", "dcf_obj"):
+                top.append(self.obj_node("cfg", f, d, items, False))
+                continue
             ref = self.base + "/" + f if entry == "dcf" else self.spell(wdir, f)
             top.append({"k": "sub", "key": "cfg", "ref": ref, "file": f, "items": items, "dir": wdir, "fdir": d})
         if entry == "args":
             top += self.level(0, wdir, direct, depth - 1)
             rng.shuffle(top)
-        elif entry == "dcf":
+        elif entry in ("dcf", "dcf_obj"):
             top += self.level(0, wdir, direct, depth - 1)
         return {"id": self.pid, "wdir": wdir, "entry": entry, "top": top}
+
+    def obj_node(self, key, f, d, items, dirmode):
+        """a Path OBJECT for file (or directory) f in directory d: created from a spelling relative to a remembered
+        directory `rem` - mostly the very directory the file sits in - either with cwd=rem or while the process was in rem"""
+        rng = self.rng
+        r = rng.random()
+        if r < 0.65 and not dirmode:
+            rem, ref = d, os.path.basename(f)                      # the file sits directly in the remembered directory
+        elif r < 0.65:
+            rem, ref = f, "."                                      # the directory itself was the working directory
+        else:
+            rem = rng.choice(DIRS)
+            ref = self.spell(rem, f, detour=False)
+        return {"k": "obj", "key": key, "ref": ref, "rem": rem, "create": rng.choice(["cwd", "chdir"]), "dirmode": dirmode,
+                "file": f, "items": items, "fdir": f if dirmode else d}
+
+    def ctx_program(self, wdir, depth):
+        """with obj.relative_path_context(): parser.parse_args(argv) - every argv item belongs to the object's directory"""
+        rng = self.rng
+        d = rng.choice(DIRS)
+        dirmode = rng.random() < 0.4
+        f = d if dirmode else d + "/" + self.fresh("ctx", ".txt")
+        pool = list(LEVEL_KEYS)
+        items = self.level(0, d, pool, depth - 1)
+        if rng.random() < 0.5:
+            cd = rng.choice(DIRS)
+            cf = cd + "/" + self.fresh("c", ".yaml")
+            citems = self.level(0, cd, pool, depth - 1) or [self.path_node("pa", cd)]
+            items.insert(rng.randint(0, len(items)), {"k": "sub", "key": "cfg", "ref": self.spell(d, cf), "file": cf, "items": citems, "dir": d, "fdir": cd})
+        if not items:
+            items = [self.path_node("pa", d)]
+        return {"id": self.pid, "wdir": wdir, "entry": "ctx", "top": [self.obj_node("ctx", f, d, items, dirmode)]}
 
 
 def all_nodes(nodes):
     for n in nodes:
         yield n
-        if n["k"] == "sub":
+        if n["k"] in ("sub", "obj"):
             yield from all_nodes(n["items"])
 
 
@@ -848,12 +885,12 @@ def dedupe_keys(prog):
     def walk(nodes, seen):
         out = []
         for n in nodes:
-            if n["key"] != "cfg":
+            if n["key"] not in ("cfg", "ctx"):
                 if n["key"] in seen:
                     continue
                 seen.add(n["key"])
-            if n["k"] == "sub" and n["key"] == "cfg":
-                n["items"] = walk(n["items"], seen)       # level-0 config shares the top-level positions
+            if n["k"] in ("sub", "obj") and n["key"] in ("cfg", "ctx"):
+                n["items"] = walk(n["items"], seen)       # level-0 config / context shares the top-level positions
             elif n["k"] == "sub":
                 n["items"] = walk(n["items"], set())
             out.append(n)
@@ -880,12 +917,19 @@ def inject_failure(rng, prog):
         kinds = ["el-missing"]
     elif n["k"] == "list":
         kinds = ["missing", "el-missing", "unreadable"]
+    elif n["k"] == "obj":
+        if n["key"] == "ctx":
+            return None                                            # the context object itself always exists
+        kinds = ["badyaml", "unknownkey"]                          # the object is created by the harness: the file must exist
     else:
         kinds = ["missing", "unreadable", "badyaml"]
         if n["key"] != "dct":
             kinds.append("unknownkey")
         if prog["entry"] == "dcf" and n is prog["top"][0]:
             kinds = ["badyaml", "unknownkey"]
+    if prog["entry"] == "apply_config_obj":
+        # ActionConfigFile.apply_config is called outside a parse: unknown keys are only rejected by the final validation of parse_*
+        kinds = [k for k in kinds if k != "unknownkey"]
     n["fail"] = rng.choice(kinds)
     if n["fail"] == "el-missing":
         n["fail_el"] = rng.randrange(len(n["els"]))
@@ -917,9 +961,20 @@ def model_items(prog, nodes=None):
                 out.append({"sub": n["ref"], "items": [{"path": e["rel"]} for e in n["els"]]})
             else:
                 out.append({"list": n["ref"], "rels": [e["rel"] for e in n["els"]]})
+        elif n["k"] == "obj":
+            if prog["entry"] == "dcf_obj":
+                # default_config_files keeps os.fspath(obj): an absolute string, resolved again at parse time
+                out.append({"sub": obj_abs(prog, n), "items": model_items(prog, n["items"])})
+            else:
+                out.append({"obj": n["ref"], "rem": base + "/" + n["rem"], "dirmode": n["dirmode"], "items": model_items(prog, n["items"])})
         else:
             out.append({"sub": n["ref"], "items": model_items(prog, n["items"])})
     return out
+
+
+def obj_abs(prog, n):
+    base = "/FIX/g%d" % prog["id"]
+    return n["ref"] if n["ref"].startswith("/") else base + "/" + n["rem"] + "/" + n["ref"]
 
 
 def expectation(prog):
@@ -950,12 +1005,21 @@ def expectation(prog):
                     flags["unstable"] = True
                 for e in n["els"]:
                     triples.add(triple(e["rel"], n["fdir"]))
+            elif n["k"] == "obj":
+                a = obj_abs(prog, n)
+                if prog["entry"] == "dcf_obj":
+                    triples.add((a, a, absdir(prog["wdir"])))
+                elif prog["entry"] == "apply_config_obj":
+                    triples.add((n["ref"], a, absdir(n["rem"])))
+                else:
+                    hidden.add(n["ref"])                           # parse_path / relative_path_context keep no record
+                walk(n["items"])
             else:
                 triples.add(triple(n["ref"], n["dir"]))
                 walk(n["items"])
 
     walk(prog["top"])
-    if prog["entry"] == "parse_path" and prog["top"]:
+    if prog["entry"] == "parse_path" and prog["top"] and prog["top"][0]["k"] == "sub":
         # parse_path does not record the path of the file it was given
         n = prog["top"][0]
         hidden.add(n["ref"])
@@ -1033,6 +1097,10 @@ def materialise(prog, root):
                         os.chmod(p, 0)
             else:
                 write_nodes(n["items"])
+                if n["k"] == "obj" and n["key"] == "ctx":
+                    if not n["dirmode"]:
+                        touch(os.path.join(base, n["file"]))
+                    continue
                 if fail == "missing":
                     continue
                 p = os.path.join(base, n["file"])
@@ -1051,9 +1119,21 @@ def materialise(prog, root):
     kw = {}
     call = ("parse_args", None)
     top = prog["top"]
+    def objspec(n):
+        return {"ref": real(n["ref"]), "rem": os.path.join(base, n["rem"]), "create": n["create"], "mode": "dr" if n["dirmode"] else "fr"}
+
     if prog["entry"] == "parse_path":
         call = ("parse_path", real(top[0]["ref"]))
         top = []
+    elif prog["entry"] in ("parse_path_obj", "apply_config_obj"):
+        call = (prog["entry"], objspec(top[0]))
+        top = []
+    elif prog["entry"] == "ctx":
+        call = ("ctx", objspec(top[0]))
+        top = top[0]["items"]
+    elif prog["entry"] == "dcf_obj":
+        kw["default_config_files"] = [objspec(top[0])]
+        top = top[1:]
     elif prog["entry"] == "dcf":
         kw["default_config_files"] = [real(top[0]["ref"])]
         top = top[1:]
@@ -1094,14 +1174,45 @@ def load_child(root, progs):
     import jsonargparse._util as U
     from jsonargparse import ArgumentError
 
+    from jsonargparse import ActionConfigFile, Namespace, Path
+    from jsonargparse.typing import path_type
+
+    def make_obj(spec, W):
+        """the Path object of the program: (a) explicit cwd=, or (b) created while the process was in the remembered directory"""
+        if spec["create"] == "cwd":
+            return Path(spec["ref"], spec["mode"], cwd=spec["rem"])
+        os.chdir(spec["rem"])
+        try:
+            return path_type(spec["mode"])(spec["ref"])
+        finally:
+            os.chdir(W)
+
     out = []
     for prog in progs:
         W, argv, kw, call = materialise(prog, root)
         os.chdir(W)
         res = {}
+        inside = None
+        obj = make_obj(call[1], W) if call[0] in ("parse_path_obj", "apply_config_obj", "ctx") else None
+        if kw.get("default_config_files") and isinstance(kw["default_config_files"][0], dict):
+            kw["default_config_files"] = [make_obj(kw["default_config_files"][0], W)]
+        if os.getcwd() != W:
+            raise RuntimeError("harness: not back in the working directory")
         try:
             parser = build_parser(3, **kw)
-            cfg = parser.parse_path(call[1]) if call[0] == "parse_path" else parser.parse_args(argv)
+            if call[0] == "parse_path":
+                cfg = parser.parse_path(call[1])
+            elif call[0] == "parse_path_obj":
+                cfg = parser.parse_path(obj)
+            elif call[0] == "apply_config_obj":
+                cfg = Namespace()
+                ActionConfigFile.apply_config(parser, cfg, "cfg", obj)
+            elif call[0] == "ctx":
+                with obj.relative_path_context() as d:
+                    inside = [d, os.getcwd()]
+                    cfg = parser.parse_args(argv)
+            else:
+                cfg = parser.parse_args(argv)
             res = {"ok": True, "paths": flatten_paths(cfg)}
         except ArgumentError as ex:
             res = {"ok": False, "exc": "ArgumentError", "msg": str(ex)[-300:]}
@@ -1109,6 +1220,7 @@ def load_child(root, progs):
             res = {"ok": False, "exc": type(ex).__name__, "msg": str(ex)[-300:]}
         res["cwd_after"] = os.getcwd()
         res["cwd_before"] = W
+        res["ctx_inside"] = inside
         cpd = U.current_path_dir.get()
         res["cpd_after"] = cpd
         if cpd is not None:
@@ -1138,6 +1250,8 @@ def judge_load(ctx, prog, real, model):
         orc = "working directory after the call is %s, was %s" % (real["cwd_after"], W)
     elif real["cpd_after"] is not None:
         orc = "current_path_dir after the call is %r" % (real["cpd_after"],)
+    elif prog["entry"] == "ctx" and real.get("ctx_inside") and real["ctx_inside"][1] != "/FIX/g%d/%s" % (prog["id"], prog["top"][0]["fdir"]):
+        orc = "inside relative_path_context() of a Path for %s the working directory is %s" % ("/FIX/g%d/%s" % (prog["id"], prog["top"][0]["file"]), real["ctx_inside"][1])
     elif real["ok"] and not exp_ok:
         orc = "parse succeeds although the program contains a failing item (%s)" % ", ".join(sorted({n["fail"] for n in all_nodes(prog["top"]) if n.get("fail")}))
     elif not real["ok"] and exp_ok:
@@ -1179,7 +1293,7 @@ def shrink_program(ctx, root_maker, prog, still_bad, budget=40):
         def collect(nodes, pre):
             for i, n in enumerate(nodes):
                 paths.append(pre + [i])
-                if n["k"] == "sub":
+                if n["k"] in ("sub", "obj"):
                     collect(n["items"], pre + [i])
 
         collect(cur["top"], [])
@@ -1189,7 +1303,7 @@ def shrink_program(ctx, root_maker, prog, still_bad, budget=40):
             for i in pth[:-1]:
                 nodes = nodes[i]["items"]
             if len(pth) == 1 and cand["entry"] != "args" and pth[0] == 0:
-                continue
+                continue                                           # the entry point's own config / context object stays
             del nodes[pth[-1]]
             trials += 1
             if still_bad(cand):
@@ -1270,7 +1384,7 @@ def load_stage(ctx: Ctx, nprog):
 def prog_depth(nodes):
     d = 0
     for n in nodes:
-        if n["k"] == "sub":
+        if n["k"] in ("sub", "obj"):
             d = max(d, 1 + prog_depth(n["items"]))
         elif n["k"] == "list":
             d = max(d, 1)
